@@ -48,7 +48,7 @@ func TestWorker(t *testing.T) {
 	}
 	env.Tier = job.Tier
 	p.Prepare(job.Tier)
-	go watchdog(20)
+	go watchdog(25)
 	switch job.Mode {
 	case "explore":
 		explore(p, &job)
@@ -145,7 +145,7 @@ func watchdog(stallS float64) {
 		if time.Since(lastChange).Seconds() < stallS {
 			continue
 		}
-		if cpuSeconds()-cpuAt > 0.05*time.Since(lastChange).Seconds() {
+		if cpuSeconds()-cpuAt > 0.02*time.Since(lastChange).Seconds() {
 			// somebody is computing (a long task between two scheduling points): not blocked
 			lastChange, cpuAt = time.Now(), cpuSeconds()
 			continue
